@@ -19,7 +19,9 @@ RULE = ("definitions with 1-2 sensors of 1-3 readings (pairwise distinct per-rea
         "fixed stream: noise table listing the sensors (and readings) in another insertion order than the sensor table, sensors with the same "
         "and with different reading names; "
         "fixed stream: the same integer-valued SPD priors handed over as int64 / int32 / float32 / float64 / Fortran-ordered arrays, sensors "
-        "of 1, 2 and 3 readings, one update and a chain of two updates (the posterior object fed back as the next prior)")
+        "of 1, 2 and 3 readings, one update and a chain of two updates (the posterior object fed back as the next prior); "
+        "fixed stream: one well-conditioned two-state problem (sensors of two and three correlated readings) with prior and per-reading noise "
+        "scaled by 1e-14 .. 1e8 and the innovation by the square root: correction and posterior compared RELATIVE to their exact magnitude")
 NOTE = ["oracle: exact Fractions recomputation of S, K, x', P' from sympy h and dh/dx by name and the per-reading noise supplied by name",
         "the Lean model checks its own Gauss-Jordan inverse (S*Sinv = 1) before using it",
         "sign-dependent readings: h and dh/dx are those of the expression as written, evaluated at the (negative) estimate by sympy",
@@ -302,6 +304,63 @@ def priors_of_any_element_type(ctx):
                                               cov=res.covariance, state=res.state, extra={"prior_array": sname, "prior": pname, "after_update_of": key})
 
 
+def priors_and_noise_of_any_magnitude(ctx):
+    """fixed stream: ONE well-conditioned problem (two correlated states, a sensor with two correlated readings, one with three)
+    handed over at scales from 1 down to 1e-14 and up to 1e8: the prior, the per-reading noise are multiplied by the scale and the
+    innovation by its square root, so the exact gain is the SAME at every scale, the correction scales with sqrt(scale) and the
+    posterior with scale. The update is compared RELATIVE to those magnitudes (1e-6 of the largest exact correction / posterior entry) -
+    the absolute slack of the ordinary comparison would hide everything below 1e-9."""
+    import random
+    a, b, dt = sympy.symbols("pa pb dt")
+    d = gen.Definition(dt, [a, b], [], [], {a: a + dt * b, b: b},
+                       {"pair": {"along": a + b, "across": a - 2 * b}, "triple": {"t1": a, "t2": a + b, "t3": 3 * b - a}})
+    base_noise = {"pair": {"along": F(1, 8), "across": F(3, 16)}, "triple": {"t1": F(1, 4), "t2": F(1, 16), "t3": F(5, 16)}}
+    baseP = [[F(1), F(3, 4)], [F(3, 4), F(2)]]
+    pt = {"dt": F(1, 8), "cal": {}, "control": {}, "state": {"pa": F(3, 2), "pb": F(-1, 2)}}
+    Ls = ["pa", "pb"]
+    for e in (0, -4, -6, -8, -9, -10, -12, -14, 4, 8):
+        sc = F(10) ** e
+        rt = F(10) ** (e // 2)
+        sensor = {k: {r: v * sc for r, v in rd.items()} for k, rd in base_noise.items()}
+        P = [[v * sc for v in row] for row in baseP]
+        try:
+            ekf = eh.compile_ekf(d, {}, sensor, {}, random.Random(5), cse=bool(e % 4 == 0))
+        except Exception as ex:
+            ctx.fail(f"compile-ekf-raises:{fk.exc_kind(ex)}:magnitude", repr(ex)[:300], {"def": d.describe(), "scale": f"1e{e}"}); continue
+        sub = eh.subs_map(d, pt)
+        x = [pt["state"][n] for n in Ls]
+        for key in ("pair", "triple"):
+            rd = d.sensors[key]
+            Lr = sorted(rd)
+            hx = eh.oracle_vals(rd, Lr, sub)
+            z = {r: h + rt * F(k + 1, 3) * (-1) ** k for k, (r, h) in enumerate(zip(Lr, hx))}
+            want = oracle_update(d, rd, sensor[key], sub, P, x, z)
+            tag = "magnitude"
+            case = {"def": d.describe(), "sensor": key, "noise": {r: str(v) for r, v in sensor[key].items()}, "point": eh.point_json(pt),
+                    "P": eh.mat_json(P), "z": {r: core.frac_str(F(v)) for r, v in z.items()}, "stream": tag, "scale": f"1e{e}"}
+            ctx.case(case, True); ctx.count(f"stream={tag}")
+            try:
+                with fk.quiet():
+                    res = ekf.sensor_model(eh.state_obj(ekf, pt), eh.cov_obj(ekf, P), sensor_key=key,
+                                           sensor_reading=ekf.make_reading(key, **{r: float(v) for r, v in z.items()}))
+                gx = fk.by_name(res.state)
+                gP = np.asarray(res.covariance.data, dtype=float)
+            except Exception as ex:
+                ctx.fail(f"sensor-model-raises:{fk.exc_kind(ex)}:{tag}", f"sensor_model raises {ex!r}"[:300], case); continue
+            dx_want = [float(w - xi) for w, xi in zip(want["x"], x)]
+            dx_got = [float(gx[n]) - float(xi) for n, xi in zip(Ls, x)]
+            mag_x = max(abs(v) for v in dx_want)
+            # binary64 subtraction of a state of size ~1 loses 1e-16 absolute: allow for it next to the relative slack
+            if not all(abs(g - w) <= 1e-6 * mag_x + 1e-15 for g, w in zip(dx_got, dx_want)) and mag_x > 1e-8:
+                ctx.fail(f"update-state:{tag}", f"at scale 1e{e} the correction x' - x = {dx_got} differs from K (z - h(x)) = {dx_want}", case)
+                continue
+            wP = np.array([[float(v) for v in r] for r in want["P"]], dtype=float)
+            mag_P = float(np.max(np.abs(wP)))
+            if gP.shape != wP.shape or not np.all(np.isfinite(gP)) or float(np.max(np.abs(gP - wP))) > 1e-6 * mag_P:
+                ctx.fail(f"update-cov:{tag}", f"at scale 1e{e} the updated covariance {gP.tolist()} differs from P - K H P = {wP.tolist()} "
+                         f"by more than 1e-6 of its largest entry"[:600], case)
+
+
 def run(ctx, focus="C05"):
     audit = core.lean_audit("C05")
     drv = core.Driver()
@@ -396,6 +455,7 @@ def run(ctx, focus="C05"):
         readings_that_depend_on_a_sign(ctx)            # fixed inputs, private random streams: nothing is drawn from ctx.rng
         sensor_tables_in_different_orders(ctx)
         priors_of_any_element_type(ctx)
+        priors_and_noise_of_any_magnitude(ctx)
         core.DEFAULT_TOL = tol                         # the comparisons below keep the tolerance they had before these two streams
     ans = drv.run()
     for idx, gx, gP, gS, gy, info in pending:
